@@ -404,7 +404,13 @@ class C09(PropertyCheck):
 
         # (e) model of the constructor chains of the gate classes (Model/GateCtor.lean over the regenerated Gen/GateCtor.lean)
         #     vs the implementation: refusal kind, what the object carries, matrix of get_compact_qobj
-        cc.correspondence(ctx, res, drv, self._ctor()["entries"], self.class_map)
+        try:
+            entries = self._ctor()["entries"]
+        except tgc.TranslatorError as e:
+            # already reported as a broken obligation by regenerate(); the oracle sweep does not need the table
+            res.notes.append(f"constructor correspondence not run: the class bodies are no longer recognised ({e})")
+        else:
+            cc.correspondence(ctx, res, drv, entries, self.class_map)
 
     def _corr_ctrl(self, ctx, res, drv):
         import qutip
